@@ -18,7 +18,7 @@ LEVEL_TEXT = ('fault enumeration: a fault-free run yields the I/O event list, HD
               'reads and interrupts at seeded lines, so the write is abandoned after 0..all chunks; buffer checksums around each write')
 LEVEL_NOTE = ('trusted: harness keeps the only references to the caller buffers and checksums their base memory (guards included); '
               'read-only arrays are part of the workload (an in-place write would raise - not forbidden by this property)')
-TIERS = {'quick': {'cases': 500, 'wall': 45, 'faults_per_case': 6}, 'thorough': {'cases': 100000, 'wall': 840, 'faults_per_case': 10 ** 6}}
+TIERS = {'quick': {'cases': 1400, 'wall': 45, 'faults_per_case': 6}, 'thorough': {'cases': 100000, 'wall': 840, 'faults_per_case': 10 ** 6}}
 RULE = ('case = seeded frames supplied inline / dict / structured array (also as a view into a larger buffer) / HDF5, with casts, '
         'windows and input chunk sizes, written fault-free and once per enumerated fault; non-trivial = a fault fired and the write '
         'was abandoned, or the source is a zero-copy view; distinct = case digest')
